@@ -259,7 +259,11 @@ func (st *Stack) Add(write func(w *Writer) error) error {
 	}
 
 	if !st.disableAutoCompact {
-		return st.AutoCompact()
+		// The transaction is committed at this point: a compaction
+		// that fails must not make Add report a failure (the caller
+		// would retry a transaction that is already visible).
+		// Failed compactions are counted in Stats.
+		st.AutoCompact()
 	}
 	return nil
 }
